@@ -537,7 +537,7 @@ pub fn run() {
         rewire_vars(&mut d, r, nv, 0.6);
         simps_only("vars-wide-long-sparse", i, r, &d);
     });
-    let nsf = t.pick(60usize, 4_000usize);
+    let nsf = t.pick(60usize, 1_500usize);
     par_cases("vars-scalar-forest", nsf, move |r, i| {
         let nv = *r.pick(&[5u32, 7, 10, 16]);
         let hi = *r.pick(&[40usize, 90, 160]);
